@@ -547,14 +547,14 @@ def lattice(tier):
     """quick = the lattice named in DESIGN C07 (+ negative bounds and int/float literal twins);
     thorough adds irregular values, the 2**26 / 2**31 region, more sizes and quantisation steps."""
     L = {}
-    L["fb"] = [-3, -1, 0, 0.0, 1e-8, 0.1, 0.5, 1, 1.0, 3, 3.0, 7, 10, 1000, 2 ** 20, 2 ** 40]
+    L["fb"] = [-3, -1, 0, 0.0, 1e-8, 0.1, 0.3, 0.5, 1, 1.0, 3, 3.0, 7, 10, 1000, 2 ** 20, 2 ** 40]
     L["ib"] = [-3, -1, 0, 1, 3, 7, 10, 1000, 2 ** 20, 2 ** 40]
     L["rb"] = [0, 0.0, 1e-8, 0.1, 0.5, 0.999]
     L["sizes"] = [1, 2, 3, 7]
-    L["qf"] = [1, 2, 3, 4, 0.25]
+    L["qf"] = [1, 2, 3, 4, 0.25, 0.1]
     L["qi"] = [1, 2, 3, 4]
     if tier != "quick":
-        L["fb"] = sorted(L["fb"] + [1e-3, 0.3, 1.0 / 3.0, 2, 17, 100, 123.456, 2 ** 26, 2 ** 31], key=float)
+        L["fb"] = sorted(L["fb"] + [1e-3, 1.0 / 3.0, 2, 17, 100, 123.456, 2 ** 26, 2 ** 31], key=float)
         L["ib"] = sorted(L["ib"] + [2, 17, 64, 2 ** 26, 2 ** 31])
         L["rb"] = L["rb"] + [0.9, 1 - 1e-8]
         L["sizes"] = [1, 2, 3, 4, 7, 10, 20]
